@@ -77,16 +77,15 @@ fn extract_bracket_expr(pattern: &str) -> Option<(String, &str)> {
                 //
                 //     6. ...  A character class expression is expressed as a character class name
                 //        enclosed within bracket- <colon> ( "[:" and ":]" ) delimiters.
-                next = chars.next();
-                if let Some(delim) = next {
-                    expr.push(delim);
-
-                    if matches!(delim, '.' | '=' | ':') {
-                        let rest = chars.as_str();
-                        let end = rest.find([delim, ']'])? + 2;
-                        expr.push_str(&rest[..end]);
-                        chars = rest[end..].chars();
-                    }
+                // Only "[.", "[=" and "[:" open such an element; any other character after
+                // '[' (in particular a closing ']') is handled by the loop as usual.
+                let rest = chars.as_str();
+                if let Some(delim @ ('.' | '=' | ':')) = rest.chars().next() {
+                    // the element runs up to the matching ".]", "=]" or ":]"
+                    let close: String = [delim, ']'].iter().collect();
+                    let end = rest[1..].find(&close)? + 3;
+                    expr.push_str(&rest[..end]);
+                    chars = rest[end..].chars();
                 }
             }
             ']' => {
